@@ -166,7 +166,7 @@ Definition dir_valid (ex : list chunkspec) (d : dir) : Prop :=
 Definition Inv (c : pcfg) (s : pst) (f : fs) : Prop :=
   fs_ok (p_expected c) f /\
   match p_ph s with
-  | PhInit => True
+  | PhInit => p_tmp s = [] /\ p_fin s = []
   | PhOpen => exists d, f_temp f = Some d /\ files_ok d FTmp (p_tmp s) /\ files_ok d FChunk (p_fin s)
   | PhClosing => exists d, f_temp f = Some d /\ dir_valid (p_expected c) d
   | PhDone => True
@@ -224,14 +224,16 @@ Proof.
     { destruct oc as [|[]]; cbn in Ha; try (destruct (f_temp f); inversion Ha; subst; cbn; auto; fail);
         inversion Ha; subst; split; auto; discriminate. }
     destruct Hf as [Hf Ht]. split; [eapply fs_ok_final; eauto|]. cbn.
-    destruct (did oc) eqn:Ed; [|exact I]. exists []. split; [auto|]. split; intros i v H; discriminate.
+    destruct (did oc) eqn:Ed; [|split; reflexivity]. exists []. split; [auto|]. split; intros i v H; discriminate.
   - (* ORmTemp *)
     destruct (phase_eqb (p_ph s) PhInit) eqn:Ep; [|discriminate]. inversion Hs; subst s'; clear Hs.
-    split; [|exact I]. eapply fs_ok_final; [exact Hok|].
+    destruct (p_ph s); try discriminate.
+    split; [|exact Hph]. eapply fs_ok_final; [exact Hok|].
     destruct oc as [|[]]; cbn in Ha; try (destruct (f_temp f); inversion Ha; subst; reflexivity); inversion Ha; reflexivity.
   - (* ORmFinal *)
     destruct (phase_eqb (p_ph s) PhInit && p_allow_rm c) eqn:Ep; [|discriminate]. inversion Hs; subst s'; clear Hs.
-    split; [|exact I].
+    destruct (p_ph s); try discriminate.
+    split; [|exact Hph].
     destruct oc as [|[]]; cbn in Ha; try discriminate;
       try (destruct (f_final f); inversion Ha; subst; apply fs_ok_no_final; reflexivity).
     inversion Ha; subst; exact Hok.
@@ -340,7 +342,7 @@ Proof.
 Qed.
 
 Lemma Inv_init c f : fs_ok (p_expected c) f -> Inv c pst_init f.
-Proof. intros H. split; [exact H | exact I]. Qed.
+Proof. intros H. split; [exact H | split; reflexivity]. Qed.
 
 (* acceptance does not depend on how an operation ended *)
 Lemma pstep_outcome c s o oc oc' s1 :
